@@ -21,13 +21,28 @@ func (pt *pathTracker) stillOnUnfollowedRemotePath(newPath datamodel.Path) bool 
 	if pt.lastUnfollowedRemotePath.Len() == 0 {
 		return false
 	}
-	// are we still on it?
-	if newPath.Len() <= pt.lastUnfollowedRemotePath.Len() {
+	// are we still on it? only paths strictly below the unfollowed link are
+	if !isStrictPrefix(pt.lastUnfollowedRemotePath, newPath) {
 		// if not, reset to no known missing remote path
 		pt.lastUnfollowedRemotePath = datamodel.NewPath(nil)
 		return false
 	}
 	// otherwise we're on a missing path
+	return true
+}
+
+// isStrictPrefix reports whether every segment of prefix starts path, and path is longer
+func isStrictPrefix(prefix, path datamodel.Path) bool {
+	if path.Len() <= prefix.Len() {
+		return false
+	}
+	prefixSegments := prefix.Segments()
+	pathSegments := path.Segments()
+	for i, seg := range prefixSegments {
+		if !pathSegments[i].Equals(seg) {
+			return false
+		}
+	}
 	return true
 }
 
